@@ -207,14 +207,16 @@ def setup():
     subprocess.run("rm -f coq/Makefile coq/Makefile.conf; find coq -name '*.vo' -o -name '*.vok' -o -name '*.vos' -o -name '*.glob' -o -name '.*.aux' | xargs rm -f",
                    shell=True, cwd=yvlib.VERIF)
     yvlib.coq_makefile()
-    ok, mlog = yvlib.coq_make(["all"], timeout=5400)
+    # -k: a file that does not build must not stop the others; every check rebuilds and reports the
+    # closure of its own props/<ID>.v, so a failure here is only logged
+    ok, mlog = yvlib.coq_make(["-k", "all"], timeout=5400)
     if not ok:
         print(mlog[-3000:])
-        print("setup: coq build FAILED")
+        print("setup: some Coq files did not build (each check reports its own closure)")
     yvlib.build_harness("debug")
     yvlib.build_harness("release")
-    print("setup done in %.0fs (coq ok=%s)" % (time.time() - t0, ok))
-    return 0 if ok else 1
+    print("setup done in %.0fs (coq all ok=%s)" % (time.time() - t0, ok))
+    return 0
 
 
 if __name__ == "__main__":
